@@ -322,7 +322,12 @@ func (c *cors) headerIsAllowed(r *http.Request) bool {
 	}
 
 	for _, v := range strings.Split(h, ",") {
-		if !slices.ContainsFunc(c.AllowHeaders, func(h string) bool { return strings.EqualFold(h, strings.TrimSpace(v)) }) {
+		v = strings.TrimSpace(v)
+		if v == "" { // 列表中的空元素不代表任何报头
+			continue
+		}
+
+		if !slices.ContainsFunc(c.AllowHeaders, func(h string) bool { return strings.EqualFold(h, v) }) {
 			return false
 		}
 	}
